@@ -159,6 +159,7 @@ package cli
 //@?     invariant config != nil && len(configs) == len(config.ConfigFiles)   // undischarged on the reference tree: not claimed
 
 //@ func (*ProjectOptions).LoadProject
+//@   except nilderef#11, nilderef#15 : undischarged on the reference tree (engine limit or missing callee contract), not claimed
 //@   nopanic[C01,C17]
 //@   requires o != nil
 
